@@ -109,6 +109,45 @@ func (p *pebbleBE) full(t *topology.FunctionTopology, fn string) ([]detection.Sc
 	return p.db.ScanTopology(t, fn)
 }
 
+// pebbleOptBE: threshold and tolerance reach the scanner the way the CLI hands them over,
+// through NewPebbleScanner's options, never through the setters: every rung of the ladder is
+// a freshly opened scanner holding the same signature set.
+type pebbleOptBE struct {
+	pebbleBE
+	w        *world
+	thr, tol float64
+}
+
+func (p *pebbleOptBE) name() string { return "pebble-options" }
+func (p *pebbleOptBE) reopen() error {
+	if p.db != nil {
+		p.db.Close()
+		p.db = nil
+	}
+	db, err := pebbledb.NewPebbleScanner(fmt.Sprintf("/vdb/c08-opt-%d", p.w.idx), pebbledb.PebbleScannerOptions{CacheSize: 1 << 20, MatchThreshold: p.thr, EntropyTolerance: p.tol})
+	if err != nil {
+		return err
+	}
+	var batch []*detection.Signature
+	for i := range p.w.sigs {
+		cp := p.w.sigs[i]
+		batch = append(batch, &cp)
+	}
+	if err := db.AddSignatures(batch); err != nil {
+		db.Close()
+		return err
+	}
+	p.db = db
+	return nil
+}
+func (p *pebbleOptBE) setThr(v float64) error { p.thr = v; return p.reopen() }
+func (p *pebbleOptBE) setTol(v float64) bool  { p.tol = v; return true }
+func (p *pebbleOptBE) close() {
+	if p.db != nil {
+		p.db.Close()
+	}
+}
+
 type jsonBE struct{ s *jsondb.Scanner }
 
 func (j *jsonBE) name() string           { return "json" }
@@ -714,6 +753,12 @@ func main() {
 				res.Violate("pebble/load", "cannot load a well-formed signature set: "+err.Error(), map[string]any{"world": i, "signature_set": w.sigs})
 			} else {
 				m.runWorld(w, pb, tolLadder)
+			}
+			if i%4 == 1 {
+				// tolerance 0 in the options means "not configured" (the default applies), so
+				// the options path is walked on the two positive rungs
+				m.runWorld(w, &pebbleOptBE{w: w, thr: 0.75, tol: 0.5}, []float64{0.5, 2})
+				res.Count("worlds_configured_through_options", 1)
 			}
 			jb, err := loadJSON(w, dir)
 			if err != nil {
